@@ -689,6 +689,9 @@ func runIngress(prop string, r *common.Rand, tier string, o *common.Out, replay 
 	}
 	runOne(next(), open, ingReq{ing: "jsonrpc", token: "good", path: "Arith", method: "Mul", id: id, a: 2, b: 3, mode: "ok", malformed: "nodot"})
 	if prop == "C15" {
+		runStockPlugins(o, next)
+	}
+	if prop == "C15" {
 		// a fault at one point of answering a refusal (a response plugin or the service-error hook panics): the
 		// refused request still reaches no handler and gets no result (oracle only: the model has no faults)
 		for _, fault := range []string{"prewrite", "postwrite", "svcerr"} {
